@@ -662,9 +662,11 @@ pub fn bool_vector_rand(push_state: &mut PushState, _instruction_cache: &Instruc
 pub fn bool_vector_rotate(push_state: &mut PushState, _instruction_cache: &InstructionCache) {
     if let Some(b) = push_state.bool_stack.pop() {
         if let Some(bv) = push_state.bool_vector_stack.get_mut(0) {
-            bv.values.rotate_left(1);
             let n = bv.values.len();
-            bv.values[n - 1] = b;
+            if n > 0 {
+                bv.values.rotate_left(1);
+                bv.values[n - 1] = b;
+            }
         }
     }
 }
@@ -1060,9 +1062,11 @@ pub fn int_vector_remove(push_state: &mut PushState, _instruction_cache: &Instru
 pub fn int_vector_rotate(push_state: &mut PushState, _instruction_cache: &InstructionCache) {
     if let Some(i) = push_state.int_stack.pop() {
         if let Some(iv) = push_state.int_vector_stack.get_mut(0) {
-            iv.values.rotate_left(1);
             let n = iv.values.len();
-            iv.values[n - 1] = i;
+            if n > 0 {
+                iv.values.rotate_left(1);
+                iv.values[n - 1] = i;
+            }
         }
     }
 }
@@ -1413,9 +1417,11 @@ pub fn float_vector_rand(push_state: &mut PushState, _instruction_cache: &Instru
 pub fn float_vector_rotate(push_state: &mut PushState, _instruction_cache: &InstructionCache) {
     if let Some(f) = push_state.float_stack.pop() {
         if let Some(fv) = push_state.float_vector_stack.get_mut(0) {
-            fv.values.rotate_left(1);
             let n = fv.values.len();
-            fv.values[n - 1] = f;
+            if n > 0 {
+                fv.values.rotate_left(1);
+                fv.values[n - 1] = f;
+            }
         }
     }
 }
